@@ -29,9 +29,12 @@ axis = XPath1Parser.axis
 
 @method(register('@', lbp=80, rbp=80, label="attribute reference"))
 def nud__attribute_reference(self: XPathAxis) -> XPathAxis:
-    self.parser.expected_next(
-        '*', '(name)', ':', '{', 'Q{', message="invalid attribute specification")
+    if self.parser.next_token.label != 'kind test':
+        self.parser.expected_next(
+            '*', '(name)', ':', '{', 'Q{', message="invalid attribute specification")
     self[:] = self.parser.expression(rbp=80),
+    if self[0].label == 'axis' and self[0].label != 'kind test':
+        raise self[0].wrong_syntax("invalid attribute specification")
     self.name = self[0].name
     return self
 
